@@ -124,6 +124,8 @@ func parentExpired(ctx, first, fragments) (r)
   loop 0
     invariant last == len(fragments) - 1 && i <= last && now == entry(now)
     invariant (i == last ==> name == fragments[last]) && (i < last ==> name == sfx(fragments, i + 1))
+    invariant i >= 0 && i == last ==> sfx(fragments, i) == name
+    invariant i >= 0 && i < last ==> sfx(fragments, i) == fragments[i] ++ "." ++ name
     invariant forall j Int {sfx(fragments, j)} :: i < j && j <= last ==> okName(store, sfx(fragments, j))
 
 func checkFragment(v, isRoot) (r)
